@@ -43,10 +43,20 @@ Definition patch (pos operand : N) (c : cstate) : cstate :=
   let r2 := set_nth r1 (n - 1 - (pos + 2)) (lo_byte operand) in
   mkC r2 n (consts c) (funcs c).
 
+(* same float datum (distinguishes the two zeros, identifies NaNs): the
+   printed forms of two floats coincide exactly in that case *)
+Definition sf_same (a b : SpecFloat.spec_float) : bool :=
+  match a, b with
+  | SpecFloat.S754_zero s, SpecFloat.S754_zero t => Bool.eqb s t
+  | SpecFloat.S754_infinity s, SpecFloat.S754_infinity t => Bool.eqb s t
+  | SpecFloat.S754_nan, SpecFloat.S754_nan => true
+  | SpecFloat.S754_finite s m e, SpecFloat.S754_finite t n f => Bool.eqb s t && Pos.eqb m n && Z.eqb e f
+  | _, _ => false
+  end.
 Definition const_same (a b : value) : bool :=
   match a, b with
   | VInt x, VInt y => (x =? y)%Z
-  | VFloat x, VFloat y => PrimFloat.eqb x y
+  | VFloat x, VFloat y => sf_same (Prim2SF x) (Prim2SF y)
   | VStr x, VStr y => str_eqb x y
   | VRegexp x, VRegexp y => str_eqb x y
   | _, _ => false
